@@ -1,0 +1,24 @@
+//go:build verif
+
+package ion
+
+// Re-exports of symbol-table internals for the /verif correspondence harness
+// (component symtab).  Compiled only with -tags verif; adds no behaviour.
+
+// VerifSymbolIdentifier is symbolIdentifier.
+func VerifSymbolIdentifier(s string) (int64, bool) { return symbolIdentifier(s) }
+
+// VerifNewSymbolTokenAuto is newSymbolToken.
+func VerifNewSymbolTokenAuto(st SymbolTable, text string) (SymbolToken, error) {
+	return newSymbolToken(st, text)
+}
+
+// VerifNewBogusSST builds the placeholder for an import missing from the catalog.
+func VerifNewBogusSST(name string, version int, maxID uint64) SharedSymbolTable {
+	return &bogusSST{name: name, version: version, maxID: maxID}
+}
+
+// VerifReadImport is readImport (the reader must be positioned on the import struct).
+func VerifReadImport(r Reader, cat Catalog) (SharedSymbolTable, error) {
+	return readImport(r, cat)
+}
